@@ -13,7 +13,7 @@ BASELINE_CMD = (
 )
 
 # property -> (claimed clauses text, technique, level_note)
-PENDING = {
+CLAIMS_HEAD = {
     "C01": (
         "Structural necessary conditions only: (R01.a) every expression-level join (IfExp, BoolOp, chained Compare, "
         "binop over unions, union callee/receiver, flatten_unions) unites the result of every branch/member; "
@@ -25,6 +25,7 @@ PENDING = {
 }
 
 CLAIMS = {
+    **CLAIMS_HEAD,
     "C02": (
         "Decides: (R02.a) no Value class is silently dropped by any ConstraintType arm/polarity or predicate "
         "(abstract dispatch over the class hierarchy); (R02.b) narrowed results are built only from the input and "
@@ -34,6 +35,15 @@ CLAIMS = {
         "abstract interpretation over sets of Value classes (ADI) + provenance + folded tables",
         "Class-level abstraction: conditions on payloads are opaque and fork both ways; the bindable-class domain "
         "excludes internal kinds listed with reasons in sa/rules/common.py.",
+    ),
+    "C03": (
+        "Decides three structural clauses only: (R03.a) the numeric promotion table in TypeObject.__post_init__ is "
+        "exactly int->float, int->complex, float->complex (plus the thrift-enum edge), merged into base_classes next "
+        "to the real MRO; (R03.b) every literal equality that decides assignability or value identity is conjoined "
+        "with a type-identity test or keyed on (value, type); (R03.c) list/tuple/set/frozenset/dict literals are all "
+        "decomposed element-wise. The equality is_assignable(o, T) == member(o, T) itself is not decided.",
+        "guard/effect extraction + pattern rules on value.py and type_object.py",
+        "The typing spec's promotion special case is the oracle for R03.a.",
     ),
     "C04": (
         "Decides the algebraic laws that are visible in the dispatch structure of can_assign: (R04.a) Never reaches no "
@@ -68,6 +78,16 @@ CLAIMS = {
         "finite-domain evaluation of the kind tables + truth-table extraction of binder markers",
         "docs/type_evaluation.md is the oracle for the kind table.",
     ),
+    "C06": (
+        "Decides error discipline only: (R06.a) an incompatible argument is reported through ctx.on_error and "
+        "signalled by a None bounds map; both callers of _check_param_type_compatibility test for None (default "
+        "error return / had_error), had_error reaches CallReturn.is_error, unsolvable type variables end in the "
+        "default error return; (R06.b) the main pass checks every bound argument against the substituted type and "
+        "neither impl nor evaluator runs after a failed check. `diagnosed iff some argument is outside the declared "
+        "type` and result-type containment are behavioural and not decided.",
+        "def-use of the failure signal through check_call_with_bound_args",
+        "",
+    ),
     "C07": (
         "Decides: (R07.a) at every can_assign call between a value derived from the expected signature and one "
         "derived from the actual signature (roles by def-use, propagated into can_assign_var_positional/keyword "
@@ -79,6 +99,16 @@ CLAIMS = {
         "def-use role inference + sibling-arm parity on Signature.can_assign",
         "Roles are seeded from self/other; operands with mixed roles are skipped and counted in evidence.",
     ),
+    "C08": (
+        "Decides: (R08.a) the loops of OverloadedSignature.check_call derive their sequence from self.signatures "
+        "through order-preserving steps only; (R08.b) the result dispatch tests error / union / Any / clean in that "
+        "order, error continues, Any and union fall through, clean returns; (R08.c) after the loop every path unites "
+        "Any matches or reports an error (CFG must-pass-through), every Any[error] return follows show_error; "
+        "(R08.d) the used-Any flag is read inside reset_any_used(), both modes are scoped overrides, mixed matches "
+        "give Any[multiple_overload_matches]. Equality with a reference resolver over all overload sets is not decided.",
+        "order-provenance + CFG must-pass-through on the overload loop",
+        "",
+    ),
     "C09": (
         "Decides the merge discipline: (R09.a) every captured branch scope reaches combine_subscopes (directly, via a "
         "local list, or via a helper parameter); (R09.b) conditionally executed children are visited inside a "
@@ -88,6 +118,27 @@ CLAIMS = {
         "possibly undefined names. Equality with an independent CFG reaching-definitions analysis is not decided.",
         "def-use flow of scope captures + lexical scoping table over the visitor",
         "The table of conditional children per visitor method is encoded from Python's execution model.",
+    ),
+    "C15": (
+        "Decides solver shape: (R15.1) solve() handles every Bound subclass; (R15.2) every bounds list handed to "
+        "make_bounds_map spreads get_inherent_bounds() of each type variable involved, which yields UpperBound for a "
+        "bound and IsOneOf for constraints; (R15.3) with both a lower and an upper bound top.can_assign(bottom) is "
+        "checked and its error returned; (R15.4) with constraints present every returned value is a constraint, Any "
+        "or an error; (R15.5) resolve_bounds_map collects every solver error and all callers test them. That the "
+        "chosen value satisfies every bound, and order independence of the fold, are not decided.",
+        "pattern + guard rules on typevar.solve and its callers",
+        "",
+    ),
+    "C16": (
+        "Decides edit-script well-formedness only: (R16.a) deletions iterate sorted(..., reverse=True) and delete "
+        "lines[lineno - 1]; (R16.b) additions are spliced at max(linenos_to_delete) before the deletions; (R16.c) "
+        "only changes[0] is applied per pass, the repeat loop asserts ITERATION_LIMIT; (R16.d) the add-ignores edit "
+        "deletes its own line and adds a comment-only, code-specific line followed by the unchanged original line; "
+        "(R16.e) producers and consumers agree that linenos_to_delete is 1-based. That decompile() output parses, "
+        "that the proposing diagnostic disappears and that the iteration converges are not decided; the two defects "
+        "named in the property text are not detected by these rules.",
+        "provenance + ordering rules on the fixer in node_visitor.py",
+        "",
     ),
     "C17": (
         "Decides table agreement only: (R17.1) the conversion-type / flag / length-modifier character classes of the "
@@ -127,6 +178,16 @@ CLAIMS = {
         "relation D(P+comment) = D(P) - targeted over all placements is not decided; option precedence is C18.",
         "CFG dominance + def-use on the diagnostic filter",
         "CFG is statement-level with exception edges only inside try bodies; string shapes of the comment tests are matched on the normalised source.",
+    ),
+    "C13": (
+        "Decides sibling parity: (R13.1) the set of subscripted typing forms handled by the AST/string route "
+        "(_type_from_subscripted_value) equals the set handled by the runtime route (_value_of_origin_args) modulo "
+        "three documented one-sided forms, and every AST-route arm that takes members[0] checks the arity; (R13.2) "
+        "both signature builders evaluate parameter annotations with allow_unpack=kind.allow_unpack() and pass them "
+        "through translate_vararg_type(kind, ...), kinds convert by value / are listed in inspect's order. "
+        "value(E via AST) == value('E') == value(eval(E)) for all E is not decided.",
+        "extraction of dispatch-arm form sets from both routes and set comparison",
+        "Forms are recognised from is_typing_name / identity tests on the dispatch variable.",
     ),
     "C14": (
         "Decides: (R14.1) equal-implies-equal-hash for every value/extension/bound/constraint/signature class, with "
